@@ -250,7 +250,7 @@ def msg_obs(m, kind):
 	return d
 
 
-def run(kind, frags, record=True):
+def run(kind, frags, record=True, feed='bytes'):
 	"""feed the fragments; returns the observation dict (calls, final, tables)"""
 	from httoop.status import StatusException
 	if record:
@@ -260,9 +260,19 @@ def run(kind, frags, record=True):
 	sm = new_machine(kind)
 	calls = []
 	err = None
+	rxbuf = bytearray()   # feed='reused': ONE receive buffer of the caller, overwritten after every call (what a socket loop with recv_into does)
 	for f in frags:
 		try:
-			out = sm.parse(bytes(f))
+			if feed == 'reused':
+				rxbuf[:] = f
+				out = sm.parse(rxbuf)
+				rxbuf[:] = b'\xee' * len(rxbuf)
+			elif feed == 'bytearray':
+				out = sm.parse(bytearray(f))
+			elif feed == 'memoryview':
+				out = sm.parse(memoryview(bytes(f)))
+			else:
+				out = sm.parse(bytes(f))
 		except StatusException as exc:
 			err = int(exc.code)
 			calls.append({'err': err})
